@@ -9,7 +9,7 @@
 //!
 //! Space: nesting depth <= 2 nodes below the root, <= 2 children per list, names over 2 values
 //! (+ absent where optional), signatures over 3, directions/access over all values (+ absent),
-//! annotation values over {a, <, &, ", ', ]]>} (thorough: also "", " x ", é, tab, newline, >).
+//! annotation values over {a, "", <, &, ", ', ]]>} (thorough: also " x ", é, tab, newline, >).
 //! Every element kind's own attribute product is enumerated completely; lists are [] / every single
 //! element / every element paired with its successor; the contexts above an element use base choice
 //! (see `cap`). The full cross product of the grammar at these bounds is astronomically large.
@@ -236,9 +236,9 @@ const ACCESS: [&str; 3] = ["read", "write", "readwrite"];
 const NODE_NAMES: [Option<&str>; 3] = [None, Some("b"), Some("/a/b")];
 
 pub fn pools(tier: Tier) -> Pools {
-    let mut ann_values: Vec<String> = ["a", "<", "&", "\"", "'", "]]>"].iter().map(|s| s.to_string()).collect();
+    let mut ann_values: Vec<String> = ["a", "", "<", "&", "\"", "'", "]]>"].iter().map(|s| s.to_string()).collect();
     if tier == Tier::Thorough {
-        ann_values.extend(["", " x ", "é", "a\tb", "a\nb", ">", "&amp;", "<![CDATA[x]]>"].iter().map(|s| s.to_string()));
+        ann_values.extend([" x ", "é", "a\tb", "a\nb", ">", "&amp;", "<![CDATA[x]]>"].iter().map(|s| s.to_string()));
     }
     let mut anns = vec![];
     for n in ANN_NAMES {
